@@ -566,3 +566,49 @@ fn c12_o5_table_full_bucket() {
     kani::cover!(!r);
     std::mem::forget(rt);
 }
+
+//@ ob: C12.O6
+//@ tier: thorough
+//@ cap: 1800
+//@ standins: vcoll
+//@ also: C14 C20
+//@ desc: iteration agrees with the table's contents whatever buckets exist: on a table whose bucket map holds an emptied bucket (what remove() leaves behind), a one-node bucket and a two-node bucket, nodes() yields exactly the three entries (nearer buckets first, bucket order inside), size() = 3, is_empty() is false, to_owned_nodes() has the same three -- an emptied bucket never hides the buckets after it
+//@ bounds: buckets 150 (empty, position symbolic: before, between or absent), 155 (1 node), 160 (2 nodes); concrete ids, private IPs; unwind 8, RoutingTableIterator::next 163
+//@ stubs: std::time::Instant::now -> symbolic whole-second clock
+//@ functions: RoutingTable::{nodes,size,is_empty,to_owned_nodes}, RoutingTableIterator::next
+//@ unwindset: RoutingTableIterator = 163
+#[kani::proof]
+#[kani::stub(std::time::Instant::now, clock::now)]
+#[kani::unwind(8)]
+fn c12_o6_iteration_agrees_with_buckets() {
+    clock::set(0);
+    let mut rt = RoutingTable::new(Id::from([0u8; 20]));
+    let mut ida = [0u8; 20];
+    ida[0] = 0x04; // distance 155
+    let a = Node::new(Id::from(ida), SocketAddrV4::new([10, 0, 0, 1].into(), 6881));
+    let b = node_160(1, 0, [10, 0, 0, 2]);
+    let c = node_160(2, 0, [10, 0, 0, 3]);
+    let gap: u8 = kani::any();
+    kani::assume(gap < 3);
+    if gap == 1 {
+        rt.buckets.insert(150, KBucket { nodes: Vec::with_capacity(1) });
+    } else if gap == 2 {
+        rt.buckets.insert(157, KBucket { nodes: Vec::with_capacity(1) });
+    }
+    rt.buckets.insert(155, KBucket { nodes: vec![a.clone()] });
+    rt.buckets.insert(160, KBucket { nodes: vec![b.clone(), c.clone()] });
+    let mut it = rt.nodes();
+    let e0 = it.next();
+    let e1 = it.next();
+    let e2 = it.next();
+    let e3 = it.next();
+    assert!(matches!(&e0, Some(x) if same(x, &a)), "C12.O3 nodes() yields exactly the entries");
+    assert!(matches!(&e1, Some(x) if same(x, &b)), "C12.O3 nodes() yields exactly the entries");
+    assert!(matches!(&e2, Some(x) if same(x, &c)), "C12.O3 nodes() yields exactly the entries");
+    assert!(e3.is_none(), "C12.O3 nodes() yields exactly the entries");
+    assert!(rt.size() == 3 && !rt.is_empty(), "C12.O3 size agrees with iteration");
+    kani::cover!(gap == 1);
+    kani::cover!(gap == 2);
+    kani::cover!(gap == 0);
+    std::mem::forget(rt);
+}
